@@ -87,6 +87,8 @@ var opaqueValues = []struct {
 	{struct{ A int }{}, true},
 }
 
+type h14Key struct{}
+
 func unhex(s string) string { b, _ := hex.DecodeString(s); return string(b) }
 func tohex(s string) string { return hex.EncodeToString([]byte(s)) }
 
@@ -345,14 +347,26 @@ func h14Run(in *bufio.Scanner, out *bufio.Writer) {
 		case "ReadOnly":
 			var sx string
 			val, sx = c.Val.build(e)
+			// the context is tagged step by step ("response>request": a response context re-tagged as a request): the last tag counts
 			ctx := context.Background()
-			switch c.Op {
-			case "request":
-				ctx = validate.WithOperationRequest(ctx)
-			case "response":
-				ctx = validate.WithOperationResponse(ctx)
+			last := "none"
+			for _, op := range strings.Split(c.Op, ">") {
+				switch op {
+				case "request":
+					ctx = validate.WithOperationRequest(ctx)
+					last = op
+				case "response":
+					ctx = validate.WithOperationResponse(ctx)
+					last = op
+				case "junk": // an unrelated value in the context
+					ctx = context.WithValue(ctx, h14Key{}, "request")
+				case "cancel":
+					var cancel context.CancelFunc
+					ctx, cancel = context.WithCancel(ctx)
+					defer cancel()
+				}
 			}
-			args = fmt.Sprintf("%d %s", b2i(c.Op == "request"), sx)
+			args = fmt.Sprintf("%d %s", b2i(last == "request"), sx)
 			call = func() (int, int32) { x := validate.ReadOnly(ctx, "p", "query", val); return ev(x, x == nil) }
 		case "FormatOf":
 			f, s := unhex(c.Str2), unhex(c.Str)
@@ -593,7 +607,8 @@ func h14Gen(seed int64, n int, tier string, out *bufio.Writer) {
 		case "ReadOnly":
 			v := g.value(1)
 			c.Val = &v
-			c.Op = g.pick([]string{"request", "request", "response", "none"})
+			c.Op = g.pick([]string{"request", "request", "response", "none", "response>request", "request>response", "junk>request", "request>junk",
+				"request>cancel", "response>request>response", "none>response>junk>request", "junk"})
 		case "FormatOf":
 			c.Str = g.str()
 			c.Str2 = tohex(g.pick([]string{"date", "email", "uuid", "nope", "", "date-time", "verif-even"}))
